@@ -73,6 +73,9 @@ try:
     rc1, _ = step("build with the change", "set -o pipefail; go build ./... && go test -vet=off -count=1 -run '^$' -exec /bin/true ./... 2>&1 | grep -v 'no test files' | grep -v '^ok' | head -20; test ${PIPESTATUS[0]} -eq 0", timeout=1800)
     pk = " ".join("./%s/..." % d for d in dirs)
     rc2, _ = step("existing tests of the touched packages with the change", "go test -vet=off -count=1 -timeout 25m %s 2>&1 | tail -15; test ${PIPESTATUS[0]} -eq 0" % pk, timeout=3000)
+    if rc2 != 0:
+        # timing-sensitive cluster tests flake on a loaded machine: one retry, packages one at a time
+        rc2, _ = step("existing tests of the touched packages with the change (retry)", "go test -vet=off -count=1 -p 1 -timeout 40m %s 2>&1 | tail -15; test ${PIPESTATUS[0]} -eq 0" % pk, timeout=4000)
     shutil.copy(SD + "/zz_seeded_demo_test.go", os.path.join(W, ddir, "zz_seeded_demo_test.go"))
     rc3, out3 = step("demonstration with the change (must fail)", "go test -vet=off -count=1 -timeout 20m -run '%s' ./%s 2>&1 | tail -25; test ${PIPESTATUS[0]} -eq 0" % (runre, ddir), timeout=1500)
     subprocess.run("git checkout -q -- .", shell=True, cwd=W)
